@@ -425,6 +425,9 @@ func govcDump(v reflect.Value, depth int) any {
 
 // replayObligation concretizes the model of a failed obligation and runs it on the real code.
 func replayObligation(p *Program, o *Obligation) *ReplayResult {
+	if o.replayFn != nil {
+		return o.replayFn(o)
+	}
 	rr := &ReplayResult{Function: o.Fn, Inputs: map[string]string{}}
 	snap := o.Entry
 	if snap == nil || snap.Fn == nil {
